@@ -1,0 +1,24 @@
+//go:build verif
+
+package reachability
+
+// Machine-checked contracts for this package (comment-only; compiled only with
+// the build tag `verif`); read by /verif/govc. See /verif/DESIGN.md.
+
+// C18: the value pre-traversal must visit every operand of every instruction
+// kind, otherwise a function that is only mentioned as an operand (passed as an
+// argument, stored, returned, captured, ...) is never discovered as reachable.
+// The operand slots are extracted from the Operands methods of go/ssa.
+
+//@ func preTraversalVisitValuesInstruction
+//@   property C18
+//@   requires instruction != nil ==> ref(instruction) != 0
+//@   slots instruction world ssa.Instruction except MultiConvert.X, SliceToArrayPointer.X, Defer.DeferStack
+//@     ensures visits: called(visit, $slot)
+//@   loop val invariant istype(instruction, *ssa.Slice) && iter(val) >= 1 ==> called(visit, instruction.(*ssa.Slice).X)
+//@   loop val invariant istype(instruction, *ssa.Slice) && iter(val) >= 2 ==> called(visit, instruction.(*ssa.Slice).Low)
+//@   loop val invariant istype(instruction, *ssa.Slice) && iter(val) >= 3 ==> called(visit, instruction.(*ssa.Slice).High)
+//@   loop val invariant istype(instruction, *ssa.Slice) && iter(val) >= 4 ==> called(visit, instruction.(*ssa.Slice).Max)
+// Not required to be visited: MultiConvert.X (only in uninstantiated generic bodies),
+// SliceToArrayPointer.X (a slice, never itself a function value), Defer.DeferStack
+// (the implicit defer stack of range-over-func bodies, never a function value).
